@@ -24,6 +24,7 @@ func genCleanupProg(r *RNG) *Prog {
 		gp = append(gp, coll.GP64())
 	}
 	x := []reg.VecVirtual{coll.XMM(), coll.XMM()}
+	ks := []reg.OpmaskVirtual{coll.K(), coll.K()}
 	pickGP := func() reg.GP {
 		if r.Chance(20) {
 			return Pick(r, physGP64[:6])
@@ -33,7 +34,33 @@ func genCleanupProg(r *RNG) *Prog {
 	n := 4 + r.Intn(30)
 	nl := 1 + n/5
 	for len(p.Nodes) < n {
-		switch r.Intn(14) {
+		switch r.Intn(16) {
+		case 14:
+			// moves between the few opmask registers: a narrow self-move truncates the mask
+			ka, kb := Pick(r, ks), Pick(r, ks)
+			switch r.Intn(4) {
+			case 0:
+				addI(p, must(x86.KMOVB(ka, kb)), nil)
+			case 1:
+				addI(p, must(x86.KMOVW(ka, kb)), nil)
+			case 2:
+				addI(p, must(x86.KMOVD(ka, kb)), nil)
+			default:
+				addI(p, must(x86.KMOVQ(ka, kb)), nil)
+			}
+			p.Tags["kmov"] = true
+		case 15:
+			// vector moves between the two vector registers (VEX moves clear the bits above the operand width)
+			xa, xb := Pick(r, x), Pick(r, x)
+			switch r.Intn(3) {
+			case 0:
+				addI(p, must(x86.VMOVDQA(xa, xb)), nil)
+			case 1:
+				addI(p, must(x86.MOVAPS(xa, xb)), nil)
+			default:
+				addI(p, must(x86.VMOVDQU(xa.AsY(), xb.AsY())), nil)
+			}
+			p.Tags["vmov"] = true
 		case 0:
 			a, b := pickGP(), pickGP()
 			addI(p, must(x86.MOVQ(a.As64(), b.As64())), nil)
@@ -127,6 +154,20 @@ func cleanupCorpus() []*Prog {
 	mk("MOVL r,r on a physical register zero-extends and must survive", func(p *Prog, c *reg.Collection) {
 		addI(p, must(x86.MOVQ(operand.I64(-1), reg.RAX)), nil)
 		addI(p, must(x86.MOVL(reg.EAX, reg.EAX)), nil)
+		addI(p, must(x86.RET()), nil)
+	})
+	mk("KMOVW k,k and KMOVB k,k truncate the mask and must survive", func(p *Prog, c *reg.Collection) {
+		addI(p, must(x86.KMOVQ(reg.RAX, reg.K1)), nil)
+		addI(p, must(x86.KMOVW(reg.K1, reg.K1)), nil)
+		addI(p, must(x86.KMOVB(reg.K1, reg.K1)), nil)
+		addI(p, must(x86.KMOVQ(reg.K1, reg.RAX)), nil)
+		addI(p, must(x86.RET()), nil)
+	})
+	mk("a truncating mask copy whose destination is allocated to its dying source", func(p *Prog, c *reg.Collection) {
+		k1, k2 := c.K(), c.K()
+		addI(p, must(x86.KMOVQ(reg.RAX, k1)), nil)
+		addI(p, must(x86.KMOVW(k1, k2)), nil)
+		addI(p, must(x86.KMOVQ(k2, reg.RAX)), nil)
 		addI(p, must(x86.RET()), nil)
 	})
 	mk("MOVQ X0,X0 clears the upper half and must survive", func(p *Prog, c *reg.Collection) {
